@@ -285,7 +285,7 @@ CLAIMED = {
               "thicker than the pin gap, bundle wider than the smallest duct) and duct class (odd number of values, duct not "
               "smaller than the pitch) is rejected, and acceptance implies exactly the positivity / fit facts the geometry and "
               "step models need.  PARTIAL: the model is tied to the real reader by differential classification on valid "
-              "generated inputs and single-fault perturbations (21 fault classes across the input keys); independently every "
+              "generated inputs and single-fault perturbations (28 fault classes across the input keys); independently every "
               "invalid class must end in SystemExit before any temperature is computed and every valid generated input must "
               "be set up and swept (60 planes) without exception or hang; a single-key perturbation sweep (every numeric "
               "leaf of the input incl. FuelModel / PinModel / SpacerGrid, four extreme values each) must end in a clean "
